@@ -23,6 +23,8 @@ func init() {
 
 const vBig = 1 << 40
 
+var vCycleTable = [6]int{1, 2, 3, 30, 86400, 1<<31 - 1}
+
 var vCueTable = [5]int{1000, 1001, 1999, 2000, 60000}
 
 var vPPHTable = [10]int{1, 2, 7, 450, 1799, 1800, 1801, 2400, 3599, 3600}
@@ -144,9 +146,11 @@ func vH_C08_chunkdur() {
 	a := vAsset_testpic_2s()
 	rep := a.Reps["V300"]
 	cfg := vArbitraryCfgOpt(0, false, false)
-	atoMS := vInt("atoMS", 0, 10000)
+	// any finite offset the URL parser can produce (ato_X, X a decimal number with ms resolution), negative ones included
+	atoMS := vInt("atoMS", -vBig, vBig)
 	cfg.AvailabilityTimeOffsetS = float64(atoMS) / 1000.0
 	cfg.AvailabilityTimeCompleteFlag = false
+	vAssume(verifyAndFillConfig(cfg, 0) == nil)
 	chunkDur := (a.SegmentDurMS - int(cfg.AvailabilityTimeOffsetS*1000)) * int(rep.MediaTimescale) / 1000
 	init, seg := vMkSegment([]uint32{3000, 3000, 3000})
 	meta := segMeta{newTime: 0, newNr: 1, newDur: 9000, timescale: 90000}
@@ -178,8 +182,8 @@ func vH_C08_statuscode() {
 	now := vInt("now1", 0, 1<<42)
 	cfg := vArbitraryCfgOpt(now, false, true)
 	vAssume(*cfg.TimeShiftBufferDepthS <= 60)
-	// what ParseSegStatusCodes accepts: cycle >= 1, rsq >= 0
-	cfg.SegStatusCodes = []SegStatusCodes{{Cycle: vConc(vInt("cycle", 1, 3)), Rsq: vInt("rsq", 0, vBig), Code: 404}}
+	// what ParseSegStatusCodes accepts: 1 <= cycle <= 2^31-1, rsq >= 0
+	cfg.SegStatusCodes = []SegStatusCodes{{Cycle: vCycleTable[vConc(vInt("cycleIdx", 0, len(vCycleTable)-1))], Rsq: vInt("rsq", 0, vBig), Code: 404}}
 	segID := vInt("segID", 0, 1<<31)
 	segPart := vSegName(rep.MediaURI, segID)
 	vStubRep, vStubSegID = rep, segID
